@@ -88,8 +88,19 @@ class Universe:
                 e = esites[int(rng.integers(len(esites)))]
                 h.append((word({e: NUM, v: "x"}) if any(ls.symbol == "x" for ls in alphas[v]) else word({e: NUM, v: first}),
                           float(rng.uniform(0.2, 0.6))))
+        ssites = [i for i, b in enumerate(basis) if b.is_spin]
+        for i in ssites:
+            h.append((word({i: "sigma_z"}), float(rng.uniform(-1, 1))))
+        for a in range(len(ssites)):
+            for b in range(a + 1, len(ssites)):
+                h.append((word({ssites[a]: "sigma_x", ssites[b]: "sigma_x"}), float(rng.uniform(-1, 1))))
+                if rng.random() < 0.5:
+                    h.append((word({ssites[a]: "sigma_z", ssites[b]: "sigma_z"}), float(rng.uniform(-1, 1))))
         cr = [(word({i: CR}), float(rng.uniform(0.5, 1.0)) * (1 if k % 2 == 0 else -1)) for k, i in enumerate(esites)]
         an = [(word({i: AN}), float(rng.uniform(0.5, 1.0))) for i in esites]
+        if not esites:
+            cr = [(word({i: "sigma_x"}), float(rng.uniform(0.5, 1.0))) for i in ssites]
+            an = [(word({i: "sigma_+"}), float(rng.uniform(0.5, 1.0))) for i in ssites]
         if vsites and esites and any(ls.symbol == "x" for ls in alphas[vsites[0]]):
             cr.append((word({esites[0]: CR, vsites[0]: "x"}), 0.4))
         self.terms = {"H": h, "Cr": cr, "An": an}
